@@ -119,6 +119,9 @@ def run_impl(n, workers, maxr, script, worker_fn=lambda i: ("res", i)):
         except (TimeoutError, CancelledError, OSError) as e:
             err = ("RetryExhausted", type(e).__name__)
             fl_end = None
+        except Exception as e:  # noqa: BLE001  # neither a job result nor an injected fault: the runner itself failed
+            err = ("RunnerRaised", type(e).__name__)
+            fl_end = None
     finally:
         S.ProcessPoolExecutor, S.wait = old
     return {"out": out, "err": err, "fl": fl_end, "sub": sched.sub, "maxfl": sched.maxfl,
